@@ -31,3 +31,12 @@ func (r *RequestManager) SimInFlight() map[string]int {
 	}
 	return out
 }
+
+// SimInFlightUnlocked is SimInFlight for callers that know no task runs (E2 scheduler).
+func (r *RequestManager) SimInFlightUnlocked() map[string]int {
+	out := map[string]int{}
+	for k, v := range r.inFlight {
+		out[k] = len(v)
+	}
+	return out
+}
